@@ -239,6 +239,7 @@ func cmdSessions(args []string) {
 	maxSched := fs.Int("maxsched", 200, "schedules per pair")
 	race := fs.Bool("race", true, "build the context driver with -race")
 	caseFile := fs.String("cases", "", "cases JSON (replay)")
+	nprobe := fs.Int("nprobe", 2, "counter grammars with abandoning actions")
 	fs.Parse(args)
 	os.MkdirAll(*out, 0755)
 	var cases []*Case
@@ -259,6 +260,12 @@ func cmdSessions(args []string) {
 			}
 		}
 	}
+	if *caseFile == "" {
+		rp := rand.New(rand.NewSource(p.seed*13 + 1))
+		for i := 0; i < *nprobe; i++ {
+			cases = append(cases, GenSessionProbe(rp, fmt.Sprintf("probe-%d-%d", p.seed, i)))
+		}
+	}
 	var kept []*Case
 	for _, c := range cases {
 		if o := Observe(c); o.Outcome == "ok" {
@@ -277,6 +284,18 @@ func cmdSessions(args []string) {
 	for ci, c := range cases {
 		// inputs: some accepted, some rejected (prefer ones that fail late)
 		inputs := sessionInputs(c, r, *ninp)
+		if c.Family == "probe" {
+			// a^n ; for n around the count at which the action gives up
+			k := c.Rules[2].Act.AbortEq
+			inputs = [][]int{}
+			for _, n := range []int{k + 1, k - 1, 0, k} {
+				in := []int{}
+				for j := 0; j < n; j++ {
+					in = append(in, 1)
+				}
+				inputs = append(inputs, append(in, 3))
+			}
+		}
 		if len(inputs) < 2 {
 			continue
 		}
